@@ -1,7 +1,8 @@
 // Command conc: controlled-schedule runner. The real garr code (instrumented scratch copy) runs under the
 // token scheduler; stdout carries the trace for the Lean acceptor (Appendix A of DESIGN.md), the file given
 // by -mon receives one line per run from the property monitors:
-//   MON <run> ok <stats…>   |   MON <run> FAIL <Cxx> <reason>   |  RUN <run> <program description>
+//
+//	MON <run> ok <stats…>   |   MON <run> FAIL <Cxx> <reason>   |  RUN <run> <program description>
 package main
 
 import (
